@@ -183,6 +183,33 @@ func Solve(query string, timeout time.Duration, wantModel bool) SolveResult {
 	return res
 }
 
+// solveCore runs z3-new on a query whose step assumptions are named vstep_<i>
+// and reports whether it is unsat and, if so, whether the (minimized) unsat
+// core uses one of them.
+func solveCore(query string, timeout time.Duration) (unsat bool, usesStep bool) {
+	n := atomic.AddInt64(&queryCtr, 1)
+	file := filepath.Join(workDir, fmt.Sprintf("q%06d.smt2", n))
+	os.WriteFile(file, []byte("(set-option :produce-unsat-cores true)\n(set-option :smt.core.minimize true)\n"+query+"(get-unsat-core)\n"), 0o644)
+	if os.Getenv("GVC_KEEP") == "" {
+		defer os.Remove(file)
+	}
+	ctx, cancel := context.WithTimeout(context.Background(), timeout+2*time.Second)
+	defer cancel()
+	solverSem <- struct{}{}
+	defer func() { <-solverSem }()
+	argv := solvers[0].argv(file, int(timeout/time.Millisecond))
+	cmd := exec.CommandContext(ctx, argv[0], argv[1:]...)
+	var out bytes.Buffer
+	cmd.Stdout = &out
+	cmd.Stderr = &out
+	cmd.Run()
+	lines := strings.SplitN(out.String(), "\n", 2)
+	if strings.TrimSpace(lines[0]) != "unsat" {
+		return false, false
+	}
+	return true, len(lines) > 1 && strings.Contains(lines[1], "vstep_")
+}
+
 func truncate(s string, n int) string {
 	if len(s) > n {
 		return s[:n] + "…"
@@ -196,6 +223,7 @@ const prelude = `(set-option :produce-models true)
 (declare-sort F64 0)
 (declare-datatypes ((Slice 0)) (((mkslice (sptr Int) (soff Int) (slen Int) (scap Int)))))
 (declare-datatypes ((Iface 0)) (((mkiface (ityp Int) (ival Int)))))
+(declare-fun epoch (Int) Int)
 (declare-fun strlen (Str) Int)
 (declare-fun strat (Str Int) Int)
 (declare-const str.empty Str)
